@@ -311,6 +311,22 @@ func genRaceC17(r *Rng, sc *Scenario) *Scenario {
 		sc.Script = append(sc.Script, Out{Conn: k + 1, AtUs: t, Kind: "pkt", Pkt: p})
 		t += 500
 	}
+	if r.chance(0.5) {
+		// two application goroutines register a handler at the same instant on a
+		// healthy connection; whichever registration wins, it is the same one on
+		// this connection and on the next
+		last := nconn
+		t += 300
+		sc.Ops = append(sc.Ops, Op{AtUs: t, Kind: "handle", Handler: 20, Actor: 50, SpinUs: r.between(0, 3)})
+		sc.Ops = append(sc.Ops, Op{AtUs: t, Kind: "handle", Handler: 21, Actor: 51, SpinUs: r.between(0, 3)})
+		t += 200
+		sc.Script = append(sc.Script, Out{Conn: last, AtUs: t, Kind: "pkt", Pkt: &Pkt{Type: TPublish, QoS: 0, Topic: "a/x", Pay: "inA"}})
+		t += 200
+		sc.Faults = append(sc.Faults, Fault{Kind: "cutAt", Conn: last, AtUs: t})
+		t += cfg.ReconnBaseUs + 600
+		sc.Script = append(sc.Script, Out{Conn: last + 1, AtUs: t, Kind: "pkt", Pkt: &Pkt{Type: TPublish, QoS: 0, Topic: "a/x", Pay: "inB"}})
+		t += 500
+	}
 	sc.HorizonUs, sc.EndUs = t+2000, t+4000
 	return sc
 }
